@@ -34,6 +34,7 @@ func c16(c *Ctx) {
 	c16Dispatch(c)
 	c16Wakeup(c)
 	c16EOFAfterDrain(c)
+	c16CloseOnce(c)
 }
 
 func c16TypeTables(c *Ctx) {
